@@ -18,6 +18,7 @@ func init() {
 
 func runC13(w *World, r *Report) {
 	defer c13StopReleases(w, r, "C13-R7")
+	defer c13NotMineOnlyBySelection(w, r)
 	defer c15CatalogTables(w, r, "C13-R8")
 	defer catalogStatePairs(w, r, "C13-R6")
 	r.Rule("C13-R1", "subscribe and watch before list, release after", "StartRead: Subscribe{Collection,Partition}Event and Watch{Collection,Partition} dominate GetAllCollection; StartWatch post-dominates GetAllPartition. Watch*: etcd Watch opened outside the goroutine; the event loop is entered only through the start-watch case", 8)
@@ -616,4 +617,93 @@ func c13StopReleases(w *World, r *Report, rule string) {
 		}
 		r.Check(dom, rule, fmt.Sprintf("(*replicateChannelManager).StopReadCollection | return #%d follows the release", n), ret.Pos(), "replicateCollections is consulted on every path", "this return is reached without looking the collection up in replicateCollections: its registration (and its partitions') stays behind, so after pause and resume the collection is refused as already replicated and never restarted")
 	})
+}
+
+// c13NotMineOnlyBySelection (C13-R9): an event consumer answers "not mine" (false: let the other tasks look at it) only
+// when its own selection function said so, or after it has handed the object to the channel manager. Any other reason
+// (a table of what this task happens to replicate right now) turns a timing window into a lost partition.
+func c13NotMineOnlyBySelection(w *World, r *Report) {
+	r.Rule("C13-R9", "an event is declined only by the selection function", "in the collection / partition event consumers of CollectionReader.StartRead every `return false` is controlled by the result of shouldReadFunc or follows the AddPartition / StartReadCollection call", 2)
+	sr := w.Func(pkgReader, "CollectionReader", "StartRead")
+	if sr == nil {
+		r.Undecided("C13-R9", "StartRead", 0, "anchor not found")
+		return
+	}
+	n := 0
+	for _, g := range familyOf(sr).Funcs {
+		if g.Parent() == nil || g.Signature.Results().Len() != 1 || g.Signature.Params().Len() != 1 {
+			continue
+		}
+		if b, ok := g.Signature.Results().At(0).Type().Underlying().(*types.Basic); !ok || b.Kind() != types.Bool {
+			continue
+		}
+		pt := g.Signature.Params().At(0).Type().String()
+		if !strings.HasSuffix(pt, "pb.PartitionInfo") && !strings.HasSuffix(pt, "pb.CollectionInfo") {
+			continue
+		}
+		var selects, hands []ssa.Instruction
+		eachInstr(g, func(in ssa.Instruction) {
+			c, ok := in.(*ssa.Call)
+			if !ok {
+				return
+			}
+			if strings.HasSuffix(w.accessPath(c.Call.Value), ".shouldReadFunc") {
+				selects = append(selects, c)
+			}
+			if nm := callSym(c.Common()).name; nm == "AddPartition" || nm == "StartReadCollection" {
+				hands = append(hands, c)
+			}
+		})
+		if len(selects) == 0 {
+			continue // the listing filters: not an event consumer
+		}
+		k := 0
+		eachInstr(g, func(in ssa.Instruction) {
+			ret, ok := in.(*ssa.Return)
+			if !ok || len(ret.Results) != 1 {
+				return
+			}
+			c, isC := ret.Results[0].(*ssa.Const)
+			if !isC || c.Value == nil || c.Value.String() != "false" {
+				return
+			}
+			n++
+			k++
+			good := ""
+			for _, h := range hands {
+				if instrDominates(h, ret) {
+					good = "after the object was handed to the channel manager"
+				}
+			}
+			if good == "" {
+				for _, b := range g.Blocks {
+					cond, _, _, isIf := ifSuccs(b)
+					if !isIf || !b.Dominates(ret.Block()) || b == ret.Block() {
+						continue
+					}
+					// the innermost deciding branch must be the selection's
+					for _, x := range backSlice(cond, SliceOpts{MaxDepth: 5}) {
+						for _, sc := range selects {
+							if x == sc.(ssa.Value) {
+								// and no other decision lies between it and the return
+								inner := false
+								for _, b2 := range g.Blocks {
+									if _, _, _, isIf2 := ifSuccs(b2); isIf2 && b2 != b && b.Dominates(b2) && b2.Dominates(ret.Block()) && b2 != ret.Block() {
+										inner = true
+									}
+								}
+								if !inner {
+									good = "shouldReadFunc said no"
+								}
+							}
+						}
+					}
+				}
+			}
+			r.Check(good != "", "C13-R9", fmt.Sprintf("%s | return false #%d", shortFn2(g), k), ret.Pos(), good, "the consumer declines the event for a reason other than its selection function (e.g. the collection is not yet in the table of collections this task replicates): a partition created right after its collection — whose start is still waiting for the target — is dropped by every task, silently")
+		})
+	}
+	if n == 0 {
+		r.Undecided("C13-R9", "StartRead consumers", sr.Pos(), "no consumer literal with a `return false` found")
+	}
 }
